@@ -355,6 +355,11 @@ def _run(ctx):
         if kr == {"load(%s).%s" % (ctx.N.TMP, ctx.N.TMP_KEY_FIELD)}:
             r1.site("%s %s keyed by TMP_PAIR_INFO.pair_key" % (where, op))
             continue
+        if len(kr) == 1 and list(kr)[0].endswith(".0"):
+            from . import c17 as _c17
+            if list(kr)[0][:-2] in _c17.raw_scan_items(ctx, fn):
+                r1.site("%s %s keyed by the scanned entry's own key (unbounded PAIRS scan)" % (where, op))
+                continue
         if len(kr) != 1 or not list(kr)[0].startswith(KEY):
             r1.fail("C16.R1:key-origin:%s:%s" % (fn.path, op), fn.path, where, "PAIRS.%s is keyed by %s, expected the registry key function" % (op, sorted(kr)))
             continue
@@ -366,7 +371,7 @@ def _run(ctx):
         if not m:
             r1.fail("C16.R1:key-arg:%s:%s" % (fn.path, op), fn.path, where, "key function applied to %s, expected [to_raw(a[0]), to_raw(a[1])]" % ar[:200])
             continue
-        trs = [x for x in common.walk(arg) if x[0] == "call" and ctx.N.is_fn(x[3], "info_to_raw")]
+        trs = [x for x in common.walk(common.inline_helpers(P, arg)) if x[0] == "call" and ctx.N.is_fn(x[3], "info_to_raw")]
         srcs = sorted("|".join(sorted(ctx.roots(x[4][0]))) for x in trs)
         base = None
         if len(srcs) == 2 and srcs[0].endswith("[0]") and srcs[1].endswith("[1]") and srcs[0][:-3] == srcs[1][:-3]:
@@ -489,6 +494,24 @@ def _run(ctx):
             r5.site("query_decimals: native -> factory NativeTokenDecimals(denom); token -> TokenInfo(contract).decimals")
         env = param(cp, ENV_TY)
         qcalls = [(b, P.val_call(cp, body, b)) for b, p, fr_, t in P.calls(cp) if p and generic_path(p) == qd.path]
+        # a private wrapper that only forwards the query (`asset.query_decimals(addr, querier).map_err(..)`): its call sites are
+        # query sites, judged on the inner call with the wrapper's parameters replaced by the arguments
+        for b, p, fr_, t in P.calls(cp):
+            w = (P.fn(p) or P.fn(generic_path(p))) if p else None
+            if w is None or w.path == qd.path or w.body is None or not roles.is_workspace_fn(P, p) or not common.pure_helper(P, w):
+                continue
+            ex_ = common.exit_sites(P, w)
+            if len(ex_) != 1:
+                continue
+            iv = ex_[0][3]
+            for _ in range(4):
+                ti_ = common.transparent_arg(iv[3]) if iv[0] == "call" else None
+                if ti_ is None or iv[0] != "call" or generic_path(iv[3]) == qd.path:
+                    break
+                iv = iv[4][ti_]
+            if iv[0] == "call" and isinstance(iv[3], str) and generic_path(iv[3]) == qd.path:
+                cv_ = P.val_call(cp, body, b)
+                qcalls.append((b, common.subst_params(iv, {("param", w.path, k_): a_ for k_, a_ in enumerate(cv_[4])})))
         by_idx = {}
         for b, v in qcalls:
             ar = "|".join(sorted(ctx.roots(v[4][0])))
@@ -510,16 +533,30 @@ def _run(ctx):
                 for sb in sinks:
                     if not body.edge_dominates(cont, sb):
                         r5.fail("C16.R5:query-not-dominating", cp.path, common.span_of_block_term(cp, sb), "creation effects are reachable without a successful decimals query of asset %s" % m.group(1))
-            by_idx[int(m.group(1))] = "C:%s@%s:bb%d" % (qd.path, cp.path, b)
+            by_idx[int(m.group(1))] = "C:%s@%s:bb%d" % (qd.path, v[1], v[2])
         if sorted(by_idx) != [0, 1]:
             r5.fail("C16.R5:coverage", cp.path, cp.span, "decimals are queried for assets %s, expected both" % sorted(by_idx))
         else:
             want = "A:array[%s;%s]" % (by_idx[0], by_idx[1])
+
+            def decimals_array_ok(arrv):
+                """element k is the result of the decimals query *of asset k* (decided on the value, so that two calls of one
+                forwarding wrapper — same inner call site — are still told apart by their argument)"""
+                arrv = common.inline_helpers(P, arrv)
+                while arrv[0] == "call" and isinstance(arrv[3], str) and common.transparent_arg(arrv[3]) is not None:
+                    arrv = arrv[4][common.transparent_arg(arrv[3])]
+                if arrv[0] != "agg" or arrv[1] != "array" or len(arrv[3]) != 2:
+                    return by_idx[0] != by_idx[1]          # not a literal array: the root strings decide (distinct call sites)
+                for k_, (_, ev) in enumerate(arrv[3]):
+                    qs_ = [x for x in common.walk(ev) if x[0] == "call" and isinstance(x[3], str) and generic_path(x[3]) == qd.path]
+                    if len(qs_) != 1 or "|".join(sorted(ctx.roots(qs_[0][4][0]))) != "%s[%d]" % (P_(cp, infos_i), k_):
+                        return False
+                return True
             # into TMP and into the instantiate message
             for (b, op, item, v) in common.storage_sites(P, cp, writes=True):
                 if item == ctx.N.TMP:
                     got = "|".join(sorted(ctx.roots(v[4][2], (("f", "asset_decimals"),))))
-                    if got != want:
+                    if got != want or not decimals_array_ok(common.proj(v[4][2], ("f", "asset_decimals"))):
                         r5.fail("C16.R5:tmp-decimals", cp.path, common.span_of_block_term(cp, b), "TMP.asset_decimals ⊢ %s, expected [decimals(asset0), decimals(asset1)]" % got[:200])
                     else:
                         r5.site("TMP.asset_decimals ⊢ [query_decimals(asset_infos[0]), query_decimals(asset_infos[1])]")
@@ -529,7 +566,9 @@ def _run(ctx):
             for (fn, b, i, adt, var, v, span) in common.message_sites(P):
                 if fn.path == cp.path and common.adt_short(adt) == "WasmMsg" and var == "Instantiate":
                     pay = "|".join(sorted(ctx.roots(dict(v[3])["msg"])))
-                    if ("asset_decimals=%s," % want) not in pay or ("asset_infos=%s," % P_(cp, infos_i)) not in pay:
+                    im_ = [x for x in common.walk(dict(v[3])["msg"]) if x[0] == "agg" and x[1] == "adt" and "asset_decimals" in dict(x[3])]
+                    elem_ok = len(im_) == 1 and decimals_array_ok(dict(im_[0][3])["asset_decimals"])
+                    if ("asset_decimals=%s," % want) not in pay or ("asset_infos=%s," % P_(cp, infos_i)) not in pay or not elem_ok:
                         r5.fail("C16.R5:instantiate-msg", cp.path, span.replace("!x", ""), "pair InstantiateMsg does not carry the queried decimals / the given assets: %s" % pay[:300])
                     else:
                         r5.site("pair InstantiateMsg carries the same decimals and the given assets")
